@@ -6,6 +6,7 @@ import (
 	"fmt"
 	"os"
 	"os/exec"
+	"runtime/debug"
 	"strconv"
 	"strings"
 	"sync"
@@ -60,6 +61,12 @@ func ShardFromArgs() *Shard {
 		if a == "--aslimit" && i+1 < len(os.Args) {
 			if lim, err := strconv.ParseUint(os.Args[i+1], 10, 64); err == nil && lim > 0 {
 				_ = syscall.Setrlimit(syscall.RLIMIT_AS, &syscall.Rlimit{Cur: lim, Max: lim})
+				if os.Getenv("GOGC") == "" {
+					// workers allocate a real codec object per case over a small live heap: collect less
+					// often, but start collecting in earnest well below the address-space limit
+					debug.SetGCPercent(800)
+					debug.SetMemoryLimit(int64(lim / 3))
+				}
 			}
 		}
 	}
